@@ -190,6 +190,8 @@ def cases_nd(rng, tier):
     # non-extended axes (kept or cropped) of length 0, 1, 2 next to extended ones: every mode, both directions
     for mode, d in itertools.product(MODES, DIRS):
         for ish, osh, offs in _nonext_configs(rng, mode, 8 if tier == 'quick' else 60):
+            # offset entries for axes of unchanged size are accepted and ignored (e.g. a broadcast scalar offset)
+            offs = [rng.choice([0, 1, 2, -1]) if i_ == o_ else f_ for i_, o_, f_ in zip(ish, osh, offs)]
             a, b = (ish, osh) if d == 'forward' else (osh, ish)
             arr = np.array([rng.randint(-9, 9) for _ in range(int(np.prod(a)))], dtype=float).reshape(a)
             out, kept, kind = impl_resize(arr, tuple(b), offs, mode, 0, d, rng)
@@ -754,6 +756,47 @@ def probes(rng, tier):
     out += nonextended_probes(rng, tier)
     out += padconst_dtype_probes(rng, tier)
     out += unchanged_axis_offset_probes(rng, tier)
+    out += unchanged_axis_array_probes(rng, tier)
+    return out
+
+
+def unchanged_axis_array_probes(rng, tier, only_mode=None):
+    """Array level: an offset entry for an axis of UNCHANGED size (scalar offset broadcast to all axes, or per-axis) is
+    ignored -- the axis is copied completely -- while the other axes are resized; every mode, both directions."""
+    out = []
+    pre = "import numpy as np, odl\nfrom odl.util.numerics import resize_array\n" + _REF_SRC
+    for mode in ([only_mode] if only_mode else MODES):
+        for k in range(6 if tier == 'quick' else 30):
+            ndim = rng.choice([2, 2, 3])
+            scalar = k % 2 == 0
+            o = rng.randint(1, 2)
+            ish, osh, offs = [], [], []
+            unchanged = rng.randrange(ndim)
+            for a in range(ndim):
+                if a == unchanged or (ndim == 3 and rng.random() < 0.3):
+                    n = rng.randint(2, 5); ish.append(n); osh.append(n)
+                    offs.append(o if scalar else rng.choice([1, 2, 3, -1, n + 1]))
+                elif rng.random() < 0.6:       # grow, left pad = o when the offset is a scalar
+                    n = rng.randint(3, 4); lim = {'symmetric': n - 1, 'periodic': n}.get(mode, 3)
+                    pl = o if scalar else rng.randint(0, min(lim, 2)); pr = rng.randint(0, min(lim, 2))
+                    ish.append(n); osh.append(n + pl + pr); offs.append(pl)
+                else:                           # crop
+                    n = rng.randint(4, 5); m = rng.randint(1, n - o)
+                    ish.append(n); osh.append(m); offs.append(o if scalar else rng.randint(0, n - m))
+            for direction in DIRS:
+                a_, b_ = (ish, osh) if direction == 'forward' else (osh, ish)
+                vals = [rng.randint(-9, 9) for _ in range(int(np.prod(a_)))]
+                offarg = o if scalar else offs
+                rp = pre + ("arr=np.array(%r,dtype=float).reshape(%r)\n"
+                            "kind,expected=expected_outcome(arr,%r,%r,%r,0,%r)\n"
+                            "try:\n    observed=resize_array(arr,%r,offset=%r,pad_mode=%r,direction=%r)\n"
+                            "    ok=bool(kind=='ok' and observed.shape==expected.shape and np.array_equal(observed,expected))\n"
+                            "except ValueError as e:\n    observed='ValueError: %%s' %% e; ok=False\n"
+                            % (vals, a_, tuple(b_), offs, mode, direction, tuple(b_), offarg, mode, direction))
+                ok, _ = _run(rp)
+                out.append(C.Probe(ok, 'array-unchanged-axis-offset-%s-%s' % (mode, direction),
+                                   'resize_array %s %s %s->%s with offset %r: the unchanged axes are copied completely'
+                                   % (mode, direction, a_, b_, offarg), rp))
     return out
 
 
@@ -1145,6 +1188,7 @@ def search(rng, broken):
         mode = detail.get('mode')
         if mode and 'domain' not in detail:
             cands += nonextended_probes(rng, 'quick', only_mode=mode)
+            cands += unchanged_axis_array_probes(rng, 'quick', only_mode=mode)
         if 'domain' in detail:      # operator case
             dom = detail['domain']
             conf = ([d[2] for d in dom], [tuple(d[3]) for d in dom], list(detail['ran_shp']),
@@ -1163,7 +1207,8 @@ def search(rng, broken):
             cands += inherit_probes(rng, 'quick') + padconst_dtype_probes(rng, 'thorough') \
                 + unchanged_axis_offset_probes(rng, 'thorough')
     if not cands:
-        cands = (nonextended_probes(rng, 'thorough') + transpose_probes(rng, 'thorough')
+        cands = (nonextended_probes(rng, 'thorough') + unchanged_axis_array_probes(rng, 'thorough')
+                 + transpose_probes(rng, 'thorough')
                  + range_flag_probes(rng, 'thorough') + input_kept_probes(rng, 'quick') + inherit_probes(rng, 'quick'))
     for p in cands:
         if not p.ok and p.key not in known:
